@@ -286,7 +286,64 @@ def run_bounded(env, con, tier, seed):
 
 
 def replay_file(path):
+    """./check <id> --replay <file>: show the recorded violation and RE-EXECUTE its failing input against the current
+    /repo tree where there is one (native harness witness: the harness is run again and must report the same clause;
+    solver-model / corpus witness of a function contract: the real function is called again under run-time checking of
+    the contract).  Exit 1: the failure reproduces now; 0: it does not (or no input was recorded)."""
+    import importlib
+    import glob
+    import os
+
     d = json.load(open(path))
     print(json.dumps(d, indent=1)[:4000])
     w = d.get("witness") or {}
-    return 1 if w.get("confirmed") else 0
+    if not w.get("confirmed"):
+        print("REPLAY: no failing input was recorded for this obligation (no-failing-input-found)")
+        return 0
+    prop = d.get("property")
+    root = os.path.dirname(os.path.dirname(os.path.abspath(__file__)))
+    from . import api
+
+    for m in sorted(glob.glob(os.path.join(root, "contracts", f"{prop.lower()}_*.py"))):
+        importlib.import_module("contracts." + os.path.basename(m)[:-3])
+    key = w.get("key") or w.get("clause") or d.get("obligation")
+    if w.get("source") == "native-harness" or "#native" in str(key):
+        runs = []
+        for con in api.CONTRACTS:
+            br = getattr(con, "bounded_run", None)
+            if con.prop == prop and br is not None:
+                br = br.__func__ if isinstance(br, staticmethod) else br
+                if br not in runs:
+                    runs.append(br)
+        # stand-ins attached as replay only
+        for con in api.CONTRACTS:
+            rp = getattr(con, "replay", None)
+            if con.prop == prop and rp is not None and not runs:
+                rp = rp.__func__ if isinstance(rp, staticmethod) else rp
+                r = rp(None, con, [])
+                again = bool(r.get("confirmed"))
+                print(f"REPLAY: native harness run again on the current tree -> {'FAILS again: ' + str(r.get('clause')) if again else 'does not fail now'}")
+                return 1 if again else 0
+        failing = []
+        for br in runs:
+            r = br("quick", 0)
+            failing += [f["clause"] for f in r.get("failures", [])]
+        again = key in failing or (d.get("obligation") in failing)
+        print(f"REPLAY: native harness run again on the current tree -> failing clauses now: {failing[:6]}")
+        print("REPLAY: " + ("the recorded failure reproduces" if again else "the recorded clause does not fail now"))
+        return 1 if again else 0
+    # a concrete argument tuple for a function contract
+    args = w.get("args") or w.get("inputs")
+    if args is not None:
+        for con in api.CONTRACTS:
+            if con.prop == prop and d.get("obligation", "").startswith(f"{prop}/{con.target}#{con.__name__}/"):
+                fn, _ = resolve_target(con.target)
+                try:
+                    v = native_check(con, fn, args)
+                except Exception as e:  # noqa: BLE001
+                    print(f"REPLAY: could not re-run the recorded arguments: {e!r}")
+                    return 0
+                print("REPLAY: " + (f"the real function fails the contract again: {v}" if v else "the recorded input passes now"))
+                return 1 if v else 0
+    print("REPLAY: recorded witness shown above; no re-executable input in this file")
+    return 1
